@@ -111,7 +111,7 @@ def run_case(case):
         for nm, a, b in zip(('L0vv', 'Lss', 'Lsv', 'L1vv'), Lg, Lr):
             mon.close(a, b, 1e-8, 'C01:gauge:' + nm, det(nm + ' C=%g' % C, a, b), tags, scale=sc)
         contracts.tensor2_contract(mon, diff.crys, Lr[0], 'L0vv', True, scale=sc, prefix='C01')
-        contracts.tensor2_contract(mon, diff.crys, Lr[1], 'Lss', True, scale=sc, prefix='C01')
+        work_vac.psd_contract_with_mesh_rule(mon, diff, name, nth, args, Lr[1], 1, 'Lss', sc, 1e-9, 'C01', tags, desc)
         contracts.tensor2_contract(mon, diff.crys, Lr[2], 'Lsv', False, scale=sc, prefix='C01', symmetric=False)
         contracts.tensor2_contract(mon, diff.crys, Lr[3], 'L1vv', False, scale=sc, prefix='C01')
         # (b) end to end with finite-size extrapolation X(L) = X + a L^-d + b L^-(d+2) from three torus sizes
